@@ -221,6 +221,29 @@ def directed_chains():
     chain("directed:step-type-changes", f, f,
           steps_list=[s0, [["h", ["ref", "R"], False], ["s", ["ref", "R"], True], ["n", ["opt", P("int16")], False]]])
     out += generic_chains()
+    out += alias_chains()
+    return out
+
+
+def alias_chains():
+    """named aliases of primitives whose target changes between versions (float -> double, int -> long, string <-> int), used as stream items, vector
+    elements, record fields and map values. The first one is the directed witness of an open finding (vectors / batched stream reads of an alias
+    of a fixed-width primitive go through the raw-memory path of the runtime and skip the conversion)."""
+    import copy
+    P = lambda p: ["prim", p]
+    out = []
+    for name, told, tnew, tag in (("float-to-double", P("float32"), P("float64"), "witness:alias-of-fixed-width-primitive-changed"),
+                                  ("int-to-long", P("int32"), P("int64"), "directed:alias-target-changed:int-to-long"),
+                                  ("uint8-to-int16", P("uint8"), P("int16"), "witness:alias-of-fixed-width-primitive-changed:uint8")):
+        v0 = evogen.Version()
+        v0.defs["Pixel"] = ["alias", told, "Pixel"]
+        v0.defs["R"] = ["rec", [["a", P("int32")], ["p", ["ref", "Pixel"]]], "R"]
+        v0.order += ["Pixel", "R"]
+        v0.steps = [["one", ["ref", "Pixel"], False], ["px", ["ref", "Pixel"], True], ["vec", ["vec", ["ref", "Pixel"], None], False], ["recs", ["ref", "R"], True],
+                    ["opt", ["opt", ["ref", "Pixel"]], False]]
+        v1 = copy.deepcopy(v0)
+        v1.defs["Pixel"] = ["alias", tnew, "Pixel"]
+        out.append((tag, [v0, v1]))
     return out
 
 
@@ -401,30 +424,33 @@ def _judge(report, lab, lean, direction, old_i, dst_proto, dst_schema, vals, wan
     report.count(f"{direction}.{status}")
     if lab.descs and str(lab.descs[0][0]).startswith("directed:"):
         report.count(f"{lab.descs[0][0]}.{direction}.{status}")
+    sfx = (":" + str(lab.descs[0][0])) if lab.descs and str(lab.descs[0][0]).startswith("witness:") else ""
+    _v = report.violation
+    report_violation = lambda key, rp, note="": _v(key + sfx, rp, note)
     replay = {"seed": seed, "chain": lab.idx, "edits": lab.descs, "direction": direction, "listed_version": f"v{old_i}",
               "values": vals if len(json.dumps(vals)) < 4000 else "(large)", "model_expects": want if len(json.dumps(want)) < 4000 else "(large)",
               "model_status": status, "rc": rc, "stderr": err, "files": lab.files()}
     if rc not in (0, 3):
-        report.violation(f"cpp:{direction}:crash", replay, "the generated translator crashed (not a C++ exception)")
+        report_violation(f"cpp:{direction}:crash", replay, "the generated translator crashed (not a C++ exception)")
         return
     if status == "unsupported":
         return
     if status == "err":
         if rc == 0:
-            report.violation(f"cpp:{direction}:expected-runtime-error-but-succeeded", replay,
+            report_violation(f"cpp:{direction}:expected-runtime-error-but-succeeded", replay,
                              "the model predicts a documented runtime error (overflow / union case without counterpart); the generated code wrote a value")
         return
     if rc != 0:
-        report.violation(f"cpp:{direction}:raised:{err.split(chr(10))[0][:60]}", replay, "converting between versions failed at run time")
+        report_violation(f"cpp:{direction}:raised:{err.split(chr(10))[0][:60]}", replay, "converting between versions failed at run time")
         return
     r = lean.ask({"op": "dec_proto", "proto": dst_proto, "hex": open(outp, "rb").read().hex()})
     if "error" in r or r.get("rest", 0) != 0:
-        report.violation(f"cpp:{direction}:output-does-not-decode", dict(replay, decode=r.get("error", "trailing bytes")),
+        report_violation(f"cpp:{direction}:output-does-not-decode", dict(replay, decode=r.get("error", "trailing bytes")),
                          "what the generated code wrote is not a stream of the target version")
         return
     if json.loads(r["schema"]) != json.loads(dst_schema):
-        report.violation(f"cpp:{direction}:wrong-schema-in-header", dict(replay, header=r["schema"][:600]), "")
+        report_violation(f"cpp:{direction}:wrong-schema-in-header", dict(replay, header=r["schema"][:600]), "")
         return
     if modelgen.canon_stepvals(r["vals"]) != modelgen.canon_stepvals(want):
-        report.violation(f"cpp:{direction}:converted-value-differs", dict(replay, got=r["vals"] if len(json.dumps(r["vals"])) < 4000 else "(large)"),
+        report_violation(f"cpp:{direction}:converted-value-differs", dict(replay, got=r["vals"] if len(json.dumps(r["vals"])) < 4000 else "(large)"),
                          "the value obtained across versions is not the documented conversion of the original")
